@@ -25,7 +25,16 @@ class Abort(BaseException):
 
 
 class GBase:
-    pass
+    def __repr__(self):
+        # the repr a failing printer falls back to is arbitrary text: several lines (also with the other line
+        # boundaries str.splitlines knows) for every fourth object
+        base = object.__repr__(self)
+        k = getattr(self, 'idx', 0) % 8
+        if k == 1:
+            return base + '(\n[[1, 2],\n [3, 4]])'
+        if k == 5:
+            return base + ' a\x0cb\u2028c\r'
+        return base
 
 
 class GObj(GBase):
